@@ -864,6 +864,16 @@ class Model:
                         setattr(a, fld, rewrite(blk))
                 for h in getattr(a, "handlers", []):
                     h.body = rewrite(h.body)
+                # if c: x = A else: x = B   ==>   x = A if c else B
+                if isinstance(a, ast.If) and len(a.body) == 1 and len(a.orelse) == 1 \
+                        and all(isinstance(z, ast.Assign) and len(z.targets) == 1
+                                and isinstance(z.targets[0], ast.Name)
+                                for z in (a.body[0], a.orelse[0])) \
+                        and a.body[0].targets[0].id == a.orelse[0].targets[0].id:
+                    a = ast.Assign(
+                        targets=[ast.Name(id=a.body[0].targets[0].id, ctx=ast.Store())],
+                        value=ast.IfExp(test=a.test, body=a.body[0].value,
+                                        orelse=a.orelse[0].value), lineno=a.lineno)
                 out.append(a)
                 i += 1
             return out
@@ -1193,6 +1203,34 @@ class _ExprInliner(ast.NodeTransformer):
         self.m, self.f, self.mi, self.ci = model, f, mi, ci
         self.active = set()
 
+    def _as_expression(self, tgt):
+        """the value of a helper that consists of single assignments, ifs and returns
+        only, as one (conditional) expression; None for anything else"""
+        if getattr(tgt, "_derived", False) or not hasattr(tgt, "_parent"):
+            return None
+        try:
+            h = self.m.expand_locals(tgt)
+        except Exception:
+            return None
+        body = list(h.body)
+        if body and isinstance(body[0], ast.Expr) and isinstance(body[0].value, ast.Constant):
+            body = body[1:]
+        body = _tail_form(body)
+        if body is None:
+            return None
+
+        def conv(stmts):
+            stmts = [s_ for s_ in stmts if not isinstance(s_, (ast.Pass, ast.Assert))]
+            if len(stmts) == 1 and isinstance(stmts[0], ast.Return) \
+                    and stmts[0].value is not None:
+                return stmts[0].value
+            if len(stmts) == 1 and isinstance(stmts[0], ast.If):
+                b, o = conv(stmts[0].body), conv(stmts[0].orelse)
+                if b is not None and o is not None:
+                    return ast.IfExp(test=stmts[0].test, body=b, orelse=o)
+            return None
+        return conv(body)
+
     def visit_Call(self, n):
         self.generic_visit(n)
         tgt = self.m._private_target(n, self.f, self.mi, self.ci)
@@ -1203,7 +1241,10 @@ class _ExprInliner(ast.NodeTransformer):
                 and isinstance(body[0].value.value, str):
             body = body[1:]
         if len(body) != 1 or not isinstance(body[0], ast.Return) or body[0].value is None:
-            return n
+            e1 = self._as_expression(tgt)
+            if e1 is None:
+                return n
+            body = [ast.Return(value=e1)]
         bind = self.m._bind_args(n, tgt)
         if bind is None:
             return n
